@@ -302,7 +302,7 @@ func genFiles(sc scenario, backend storage.Backend) (map[int64]*rowInfo, error) 
 		// rows that differ only in it; the remaining files have no such column and declare only "host"
 		evolve := sc.Dedup == "tags_evolve"
 		if evolve {
-			hasRegion = i <= 2
+			hasRegion = i <= sc.NFiles/2
 			if i == 1 && n < 2 {
 				n = 2
 			}
@@ -771,7 +771,11 @@ func judge(sc scenario, rows map[int64]*rowInfo, evs []map[string]interface{}, s
 	}
 	// a lost key whose (time + a proper subset of its tag values) is still shown: the rows were collapsed by a dedup
 	// on fewer tag columns than the partition's files declare
-	narrowed := func(key string) bool {
+	newestOutput := "" // the most recently published compaction output
+	// narrowed: the lost key's (time + a proper subset of its tag values) is still shown, i.e. the rows were collapsed
+	// by a dedup on fewer tag columns. viaCompacted: the lost row or its surviving sibling sat in an EARLIER compaction
+	// output (a file without arc:tags) that was an input of the collapsing job.
+	narrowed := func(key string, deleting string) (bool, bool) {
 		var lost *rowInfo
 		for _, r := range rows {
 			if r.key == key {
@@ -780,21 +784,27 @@ func judge(sc scenario, rows map[int64]*rowInfo, evs []map[string]interface{}, s
 			}
 		}
 		if lost == nil || sc.Dedup == "none" {
-			return false
+			return false, false
 		}
+		isOld := func(n string) bool { return strings.HasSuffix(n, "_compacted.parquet") && n != newestOutput }
+		found, via := false, isOld(deleting)
 		for n, rs := range files {
 			if !strings.HasSuffix(n, ".parquet") {
 				continue
 			}
 			for rid, c := range rs {
 				if r := rows[rid]; c > 0 && r != nil && r.key != key && r.t == lost.t && (r.host == lost.host || r.region == lost.region) {
-					return true
+					found = true
+					if isOld(n) {
+						via = true
+					}
 				}
 			}
 		}
-		return false
+		return found, found && via
 	}
 	const narrowSig = "lost-rows:compacted-output-carries-no-arc:tags>later-job-dedups-on-narrower-tag-set>rows-differing-only-in-a-dropped-tag-collapse"
+	const rawNarrowSig = "lost-rows:job-dedups-on-fewer-tags-than-its-own-raw-inputs-declare>rows-differing-only-in-the-omitted-tag-collapse"
 	published := map[string]bool{} // "jobN" of the current cycle -> has published an output
 	// facts used for the signature
 	type jobFact struct {
@@ -846,6 +856,9 @@ func judge(sc scenario, rows map[int64]*rowInfo, evs []map[string]interface{}, s
 				partSeen[name] = true
 			} else {
 				published[strings.SplitN(fmt.Sprint(e["by"]), ":", 2)[0]] = true
+				if strings.HasSuffix(name, "_compacted.parquet") {
+					newestOutput = name
+				}
 			}
 		case "del":
 			name := e["f"].(string)
@@ -858,15 +871,23 @@ func judge(sc scenario, rows map[int64]*rowInfo, evs []map[string]interface{}, s
 					}
 				}
 			}
+			before0 := files[name]
 			delete(files, name)
 			after := visKeys()
 			for k := range before {
 				if !after[k] {
 					who := strings.SplitN(fmt.Sprint(e["by"]), ":", 2)[0]
 					sig := "unsafe-delete:file-deleted-by-compaction-job-before-it-published-an-output"
+					files[name] = before0 // judge against the directory as it was before this delete
+					nar, via := narrowed(k, name)
+					delete(files, name)
 					switch {
-					case narrowed(k):
+					case nar && via:
+						// the rows sat in an earlier compaction output (which carries no arc:tags) when they collapsed
 						sig = narrowSig
+					case nar:
+						// the rows sat in a raw file that itself declares the tag the job's dedup key left out
+						sig = rawNarrowSig
 					case who == "parent":
 						sig = "unsafe-delete:file-deleted-by-manifest-recovery-while-its-rows-are-in-no-visible-file"
 					case published[who]:
@@ -932,8 +953,10 @@ func judge(sc scenario, rows map[int64]*rowInfo, evs []map[string]interface{}, s
 			for _, r := range rows {
 				if shown[r.key] == 0 {
 					sig := "lost-rows:key-shown-before-is-in-no-visible-file-after-clean-cycle"
-					if narrowed(r.key) {
+					if nar, via := narrowed(r.key, ""); nar && via {
 						sig = narrowSig
+					} else if nar {
+						sig = rawNarrowSig
 					}
 					return verdict{Code: 3, Signature: sig,
 						Detail: map[string]interface{}{"cycle": cycle, "rid": r.rid, "row": r.content, "was_in": r.file, "dedup": sc.Dedup}}
